@@ -14,16 +14,66 @@ package probdist
 //@   ensures [C12:sample_in_range] w.minValue <= ret && ret <= w.maxValue
 //@   ensures [C12:sample_in_table] exists(j, offset(w.values), offset(w.values) + len(w.values), ret == w.minValue + aget(arr(w.values), j))
 
+// ---- table generation (Vose's alias method) ----
+//@ pred rangeOK(w) := w != nil && w.minValue < w.maxValue && w.maxValue - w.minValue < 4611686018427387904 && -4611686018427387904 < w.minValue && w.minValue < 4611686018427387904
+//@ pred valuesOK(w) := 1 <= len(w.values) && len(w.values) <= 100 && forall(j, offset(w.values), offset(w.values) + len(w.values), 0 <= aget(arr(w.values), j) && aget(arr(w.values), j) <= w.maxValue - w.minValue)
+// a worklist holds table indices: every element of the FIFO window carries an int in [0, n)
+//@ pred idxList(l, n) := l != nil && whole(l) && 0 <= l.lhead && l.lhead <= l.ltail
+//@     && forall(p, l.lhead, l.ltail, withpat(gref(l, p, "*list.Element") != nil && gref(l, p, "*list.Element").pos == p && gref(l, p, "*list.Element").owner == l && allocated(gref(l, p, "*list.Element")) && whole(gref(l, p, "*list.Element"))
+//@         && typeis(gref(l, p, "*list.Element").Value, "int") && 0 <= gref(l, p, "*list.Element").Value.(int) && gref(l, p, "*list.Element").Value.(int) < n, gref(l, p)))
+
+//@ func (*WeightedDist).genValues(w, rng) ()
+//@   serves C12
+//@   requires rangeOK(w) && rng != nil
+//@   modifies w.values
+//@   ensures [C12:values_in_range] valuesOK(w) && fresh(w.values) && rangeOK(w)
+
+//@ func (*WeightedDist).genUniformWeights(w, rng) ()
+//@   serves C12
+//@   requires w != nil && rng != nil
+//@   modifies w.weights
+//@   loop 1 invariant -1 <= rangeindex && rangeindex < len(w.weights) && len(w.weights) == len(w.values) && fresh(w.weights) && unchanged(w.values)
+//@   ensures [C12:one_weight_per_value] len(w.weights) == len(w.values) && fresh(w.weights)
+
+//@ func (*WeightedDist).genBiasedWeights(w, rng) ()
+//@   serves C12
+//@   requires w != nil && rng != nil
+//@   modifies w.weights
+//@   loop 1 invariant -1 <= rangeindex && rangeindex < len(w.weights) && len(w.weights) == len(w.values) && fresh(w.weights) && unchanged(w.values)
+//@   ensures [C12:one_weight_per_value] len(w.weights) == len(w.values) && fresh(w.weights)
+
+//@ func (*WeightedDist).genTables(w) ()
+//@   serves C12
+//@   requires w != nil && 1 <= len(w.weights)
+//@   modifies w.prob, w.alias, private(alloftype("*list.List")), private(alloftype("*list.Element"))
+//@   ghost N := len(w.weights)
+//@   loop 1 invariant -1 <= rangeindex && rangeindex < N && n == N && unchanged(w.weights)
+//@   loop 2 invariant unchanged(w.weights) && -1 <= rangeindex && rangeindex < N && n == N && len(alias) == N && len(prob) == N && len(scaled) == N && fresh(alias) && fresh(prob) && fresh(scaled) && offset(alias) == 0
+//@   loop 2 invariant small != nil && large != nil && fresh(small) && fresh(large) && small != large && idxList(small, N) && idxList(large, N)
+//@   loop 2 invariant [C12:every_index_on_exactly_one_worklist] (small.ltail - small.lhead) + (large.ltail - large.lhead) == rangeindex + 1
+//@   loop 2 invariant forall(j, 0, N, aget(arr(alias), j) == 0)
+//@   loop 3 invariant n == N && len(alias) == N && len(prob) == N && len(scaled) == N && fresh(alias) && fresh(prob) && fresh(scaled) && offset(alias) == 0
+//@   loop 3 invariant small != nil && large != nil && fresh(small) && fresh(large) && small != large && idxList(small, N) && idxList(large, N)
+//@   loop 3 invariant [C12:alias_in_range] forall(j, 0, N, 0 <= aget(arr(alias), j) && aget(arr(alias), j) < N)
+//@   loop 3 decreases (small.ltail - small.lhead) + (large.ltail - large.lhead)
+//@   loop 4 invariant len(alias) == N && len(prob) == N && fresh(alias) && fresh(prob) && offset(alias) == 0 && large != nil && fresh(large) && idxList(large, N) && small != nil && fresh(small) && small != large && idxList(small, N)
+//@   loop 4 invariant forall(j, 0, N, 0 <= aget(arr(alias), j) && aget(arr(alias), j) < N)
+//@   loop 4 decreases large.ltail - large.lhead
+//@   loop 5 invariant len(alias) == N && len(prob) == N && fresh(alias) && fresh(prob) && offset(alias) == 0 && small != nil && fresh(small) && idxList(small, N)
+//@   loop 5 invariant forall(j, 0, N, 0 <= aget(arr(alias), j) && aget(arr(alias), j) < N)
+//@   loop 5 decreases small.ltail - small.lhead
+//@   ensures [C12:tables_complete] len(w.alias) == N && len(w.prob) == N && fresh(w.alias) && fresh(w.prob)
+//@   ensures [C12:alias_in_range] forall(j, offset(w.alias), offset(w.alias) + len(w.alias), 0 <= aget(arr(w.alias), j) && aget(arr(w.alias), j) < N)
+
 //@ func (*WeightedDist).Reset(w, seed) ()
 //@   serves C12 C09
-//@   nobody table generation (genValues/genWeights/genTables loops) is verified separately under C12; here only the representation invariant is assumed to be re-established
-//@   requires w != nil && seed != nil && w.minValue < w.maxValue
-//@   modifies w.values, w.weights, w.alias, w.prob
-//@   ensures wdInv(w)
+//@   requires rangeOK(w) && seed != nil
+//@   modifies w.values, w.weights, w.alias, w.prob, private(alloftype("*list.List")), private(alloftype("*list.Element"))
+//@   ensures [C12:tables_well_formed] wdInv(w) && unchanged(w.minValue, w.maxValue, w.biased)
 
 //@ func New(seed, min, max, biased) (w)
 //@   serves C12 C09
-//@   nobody constructor; table generation is the subject of C12
 //@   panics_if max <= min
-//@   requires seed != nil
+//@   requires seed != nil && max - min < 4611686018427387904 && -4611686018427387904 < min && min < 4611686018427387904
+//@   modifies private(alloftype("*list.List")), private(alloftype("*list.Element"))
 //@   ensures w != nil && fresh(w) && wdInv(w) && w.minValue == min && w.maxValue == max
